@@ -7,6 +7,11 @@ coordinates and live unit-constant identities.
 clauses (names as they appear in `margins` / violations)
   P-conservation      |P(s)-P(0)| <= 1e-12 * sum m|v|  (+ 16 eps_mach cond(I) per angular COM removal)   (a)
   L-conservation      |L(s)-L(0)| <= 1e-8 * sum m|r||v| + 2e3*eps*ACC*t*sum|r|            (a)
+  com-linear-* / com-angular-*   supplied velocities WITH net angular (separately: net linear) momentum x remove_com in
+                      {None, ('linear',1), ('linear',5), ('angular',n)}, each mode judged against what it is documented to do:
+                      None conserves P and L (bounds above); ('linear',n): |P| <= (f+1e-12) scale on every row after the first
+                      removal AND L unchanged (bound of L-conservation + f scale); ('angular',n): P and L both vanish;
+                      f = 1e-12 + 16 eps_mach cond(I)                                                   (a)
   reversal-x/-v       restart from (x_N, -v_N) for N steps returns to (x_0, -v_0): 1e-7 A / 1e-8 A/fs  (b)
   order               ||x_dt - x_dt/2|| / ||x_dt/2 - x_dt/4|| in [3, 5.5] at the common end time  (c)
   energy-std-scaling  std of E(t)-E(0), E=Ek+Ep, on the common time grid shrinks by [2.8, 5.6] per halving of dt   (d)
@@ -45,7 +50,7 @@ ASSUMPTIONS = ["float64 CPU, scf_eps 1e-10 so that SCF noise (<=2e-7 eV/A in for
                "velocity-Verlet recurrence clause relies on docs/source/bomd.rst naming the integrator",
                "atomic masses of the shipped table are the property's given"]
 REQUIRED_MONITORS = ["md_runs", "rows_checked", "order_ratios", "energy_ratios", "reversal_pairs", "single_points",
-                     "constants_checked", "molid_subset_files"]
+                     "constants_checked", "molid_subset_files", "momentum_mode_files", "net_L_files", "net_P_files"]
 CASE_TIMEOUT = 1500.0
 BUDGET_S = {"quick": 200, "thorough": 1700}
 
@@ -129,6 +134,17 @@ def gen_cases(tier, seed):
     for f in fresh:
         f.update(kind="fresh", T=300.0, geom_seed=s(), md_seed=int(g.integers(0, 10 ** 6)))
         cases.append(f)
+    mom = [dict(mols=["H2O", "CH4"], method="AM1", variant="net-angular", dt=0.5, n=8),
+           dict(mols=["NH3"], method="PM3", variant="net-linear", dt=0.5, n=8)]
+    if tier != "quick":
+        mom += [dict(mols=m_, method=me, variant=v_, dt=dt_, n=12)
+                for m_, me in ((["CH2O"], "AM1"), (["CH3OH", "H2O"], "PM3"), (["HCN", "NH3"], "AM1"), (["H2O"], "MNDO"))
+                for v_, dt_ in (("net-angular", 0.2), ("net-linear", 1.0))]
+    for m_ in mom:
+        m_.update(kind="momentum", T=300.0, geom_seed=s(),
+                  modes=[None, ["linear", 1], ["linear", 5], ["angular", 2]] if m_["variant"] == "net-angular"
+                  else [None, ["linear", 1], ["linear", 5], ["angular", 1]])
+        cases.append(m_)
     cases.append({"kind": "constants"})
     cases.sort(key=lambda c: -_cost(c))
     return cases
@@ -141,6 +157,8 @@ def _cost(c):
         return 2 * c["n"]
     if c["kind"] == "fresh":
         return c["n"]
+    if c["kind"] == "momentum":
+        return c["n"] * len(c["modes"])
     return 0
 
 
@@ -478,6 +496,90 @@ def _fresh(case):
     return acc.result(good > 0, obs)
 
 
+def _momentum(case):
+    """supplied velocities WITH net angular (or net linear) momentum, each COM-removal mode judged against what THAT mode
+    is documented to do: None conserves P and L; ('linear', n) zeroes P and must not touch L; ('angular', n) zeroes both."""
+    from vlib import env, md
+
+    acc = _Acc(case)
+    g = np.random.default_rng(case["geom_seed"])
+    mols = []
+    for name in case["mols"]:
+        Z, X, q, m = gen.molecule(name)
+        X = gen.distort(X, g, sigma=0.03)
+        mols.append((Z, X @ gen.generic_rotation(X, g).T))
+    S, C = gen.pad_batch(mols)
+    Zs = [z for z, _ in mols]
+    var = case["variant"]
+    V = np.array([md.supplied_velocities(s_, np.array(c_), case["T"], g, net_linear=var == "net-linear",
+                                         net_angular=var == "net-angular") for s_, c_ in zip(S, C)])
+    sett = _settings(case)
+    molid = list(range(len(S)))
+    n, dt = case["n"], case["dt"]
+    eps_m = 2.220446049250313e-16
+    obs = {}
+    good = 0
+    with env.Scratch("c08") as d:
+        for im, mode in enumerate(case["modes"]):
+            rc = tuple(mode) if mode else None
+            r = md.run_md("basic", S, C, sett, dt, case["T"], n, "%s/m%d" % (d, im), molid=molid, velocities=V,
+                          reuse_P=True, remove_com=rc, seed=3)
+            if r["error"]:
+                return {"inconclusive": "md.run raised under remove_com=%s: %s" % (mode, r["error"][:300])}
+            acc.mon["md_runs"] += 1
+            label = "none" if rc is None else "%s%d" % (rc[0], rc[1])
+            for k in molid:
+                h = r["h5"][k]
+                Zr = Zs[k]
+                mm = md.masses(Zr)
+                x, v = h["coordinates"], h["velocities"]
+                if len(x) != n + 1 or not np.array_equal(x[0], np.asarray(C[k])[:len(Zr)]) or not np.array_equal(v[0], V[k][:len(Zr)]):
+                    acc.upd("momentum-rows", 1.0, 0.5, {"mode": mode, "mol": k, "what": "rows missing or step 0 is not the supplied state"})
+                    continue
+                PL = [md.momenta(mm, x[s_], v[s_]) for s_ in range(n + 1)]
+                sc = [md.momentum_scales(mm, x[s_], v[s_]) for s_ in range(n + 1)]
+                ps, ls = max(a for a, _ in sc), max(b for _, b in sc)
+                w = np.linalg.eigvalsh(md.inertia(mm, x[0] - md.com(mm, x[0])))
+                w = w[w > 1e-10]
+                f = 1e-12 + 16.0 * eps_m * float(w.max() / w.min())
+                rsum = float(np.linalg.norm(x[0] - md.com(mm, x[0]), axis=1).sum())
+                tolL = TOL_L * ls + 2e3 * EPS * md.REF_ACC_SCALE * n * dt * rsum
+                P0, L0 = PL[0]
+                relP0, relL0 = float(np.abs(P0).max() / ps), float(np.abs(L0).max() / ls)
+                det = {"mode": mode, "mol": k, "variant": var, "P0_rel": relP0, "L0_rel": relL0}
+                if relL0 > 1e-2:
+                    acc.mon["net_L_files"] += 1
+                if relP0 > 1e-2:
+                    acc.mon["net_P_files"] += 1
+                dP = max(np.abs(p[0] - P0).max() for p in PL)
+                dL = max(np.abs(p[1] - L0).max() for p in PL)
+                first = 1  # first row written after a due removal (the removal of loop index i = 0)
+                if rc is None:
+                    acc.upd("P-conservation", dP, TOL_P * ps, dict(det, scale=ps))
+                    acc.upd("L-conservation", dL, tolL, dict(det, scale=ls), mech=_pole_mech(Zr, x) if dL > tolL else None)
+                elif rc[0] == "linear":
+                    Pmax = max(np.abs(p[0]).max() for p in PL[first:])
+                    acc.upd("com-linear-zeroes-P", Pmax, (f + TOL_P) * ps, dict(det, scale=ps))
+                    # v -= v_com does not change L about the centre of mass; the kinetic-energy rescale multiplies it by
+                    # alpha, which is 1 unless net P was present (then L0 ~ 0 in this workload): L must stay what it was
+                    acc.upd("com-linear-keeps-L", dL, tolL + f * ls, dict(det, scale=ls, L_end_rel=float(np.abs(PL[-1][1]).max() / ls)))
+                else:
+                    Pmax = max(np.abs(p[0]).max() for p in PL[first:])
+                    Lmax = max(np.abs(p[1]).max() for p in PL[first:])
+                    acc.upd("com-angular-zeroes-P", Pmax, (f + TOL_P) * ps, dict(det, scale=ps))
+                    acc.upd("com-angular-zeroes-L", Lmax, f * ls + tolL, dict(det, scale=ls))
+                # bookkeeping of that file
+                ek_amu = np.array([md.kinetic_amu(mm, v[s_]) for s_ in range(n + 1)])
+                acc.upd("Ek-row-live", np.abs(ek_amu * md.live_constants()["KINETIC_ENERGY_SCALE"] - h["Ek"]).max() / max(np.abs(h["Ek"]).max(), 1e-300),
+                        TOL_ROW_LIVE, det)
+                acc.mon["rows_checked"] += n + 1
+                acc.mon["momentum_mode_files"] += 1
+                good += 1
+                obs["%s/mol%d" % (label, k)] = {"P_end_rel": float(np.abs(PL[-1][0]).max() / ps), "L_end_rel": float(np.abs(PL[-1][1]).max() / ls)}
+            acc.cells.append("momentum/%s/%s/rc-%s" % (var, "+".join(case["mols"]), label))
+    return acc.result(good > 0, obs)
+
+
 def _constants(case):
     from vlib import md
 
@@ -501,6 +603,8 @@ def run_case(case):
         return _reversal(case)
     if kind == "fresh":
         return _fresh(case)
+    if kind == "momentum":
+        return _momentum(case)
     if kind == "constants":
         return _constants(case)
     raise ValueError(kind)
